@@ -21,6 +21,7 @@ struct HState {
   int pipe_id[4] = { -1, -1, -1, -1 };      // in, out, err, exit pipes (ground truth from the image)
   uint64_t rd_off[3] = { 0, 0, 0 };
   uint64_t wr_off = 0;
+  uint64_t wr_inflight = 0;  // size of a write that has not returned yet
   bool in_closed = false;
   int status = -1;
   bool status_known = false;
@@ -95,6 +96,7 @@ struct Runner : Hooks {
   Pipe *pipe_by_id(int id) { return id >= 0 ? K->pipes[(size_t) id] : nullptr; }
   int truth_bits(const HState &h, int interests);
   uint64_t environ_hash();
+  std::string fault_tag(int op);  // "fault=<call>@<side>" of the first fault that fired in that op, or "fault=none"
 
   // hooks
   void on_exec(Thread *, Proc *, ExecImage *) override;
